@@ -32,6 +32,12 @@ def callee(prog, f, call):
     if c is not None:
         return c
     if isinstance(call.func, ast.Attribute):
+        fn = call.func
+        if isinstance(fn.value, ast.Name) and fn.value.id in ('self', 'cls') and getattr(f, 'cls', None) is not None \
+                and fn.value.id in f.params[:1]:
+            m = f.cls.find_method(fn.attr)
+            if m is not None:
+                return m.qualname          # the method of the receiver's own class (answers to its reference name)
         return '.' + call.func.attr
     return None
 
@@ -49,7 +55,7 @@ def stmt_of(node):
     return n
 
 
-def guards_of(node, stop=None):
+def explicit_guards_of(node, stop=None):
     """[(test expr, polarity)] of the if/while/ifexp ancestors controlling `node`, innermost first."""
     out = []
     child = node
@@ -100,9 +106,15 @@ def guard_dnf(node, stop=None):
     return out
 
 
+def guards_of(node, stop=None):
+    """the conditions under which `node` runs: the if/while/ifexp ancestors (innermost first) and the negated tests of earlier
+    sibling guard clauses `if c: return/raise/continue/break` (a guard clause and a nested if are the same control structure)"""
+    return implicit_guards(node, stop)
+
+
 def implicit_guards(node, stop=None):
     """guards_of plus the negated tests of earlier sibling `if c: return/raise/continue/break` statements (fall-through guards)"""
-    out = list(guards_of(node, stop))
+    out = list(explicit_guards_of(node, stop))
     child = node
     for p in parents(node):
         for field in ('body', 'orelse', 'finalbody'):
@@ -191,6 +203,105 @@ def accumulation_as_sum(f, var):
         return None
     comp = ast.ListComp(elt=augs[0].value, generators=[ast.comprehension(target=lp.target, iter=lp.iter, ifs=[], is_async=0)])
     return ast.Call(func=ast.Name(id='sum', ctx=ast.Load()), args=[comp], keywords=[])
+
+
+def canon_calls(P, f, expr):
+    """copy of an expression in which the callees that resolve to global names are written canonically (np.x -> numpy.x)"""
+    from ..core.sym import clone
+
+    class T(ast.NodeTransformer):
+        def visit_Call(self, c):
+            self.generic_visit(c)
+            if isinstance(c.func, (ast.Name, ast.Attribute)) and not (isinstance(c.func, ast.Name) and c.func.id.startswith('__')):
+                q = P.canon(f, c.func)
+                if q is not None and not q.startswith('?undefined'):
+                    c.func = ast.Name(id=q, ctx=ast.Load())
+            return c
+    return T().visit(clone(expr))
+
+
+def accumulation_as_list(f, var):
+    """`var = []; for t in it: var.append(term)` (one unconditional loop, no break/continue, nothing else touches var before the
+    loop ends) -> the equivalent list comprehension `[term for t in it]`; None if the shape differs"""
+    inits = [a for a in find_assignments(f, var) if isinstance(a, ast.Assign)]
+    if len(inits) != 1 or not (isinstance(inits[0].value, ast.List) and not inits[0].value.elts or
+                               (isinstance(inits[0].value, ast.Call) and u(inits[0].value.func) == 'list' and not inits[0].value.args)):
+        return None
+    apps = [n for n in all_nodes(f) if isinstance(n, ast.Call) and isinstance(n.func, ast.Attribute) and n.func.attr in ('append', 'extend', 'insert')
+            and isinstance(n.func.value, ast.Name) and n.func.value.id == var]
+    if len(apps) != 1 or apps[0].func.attr != 'append' or len(apps[0].args) != 1:
+        return None
+    st = stmt_of(apps[0])
+    lp = in_loop(st, f.node)
+    if not isinstance(st, ast.Expr) or not isinstance(lp, ast.For) or lp.orelse or in_loop(lp, f.node) is not None or in_loop(inits[0], f.node) is not None:
+        return None
+    if not any(st is s_ for s_ in lp.body):
+        return None
+    if any(isinstance(x, (ast.Break, ast.Continue, ast.Return)) for x in ast.walk(lp)):
+        return None
+    # the appended term may depend on temporaries computed earlier in the same iteration: substitute them
+    term = apps[0].args[0]
+    local = {}
+    for s_ in lp.body:
+        if s_ is st:
+            break
+        if isinstance(s_, ast.Assign) and len(s_.targets) == 1 and isinstance(s_.targets[0], ast.Name):
+            local[s_.targets[0].id] = substitute(s_.value, local)
+        elif isinstance(s_, (ast.If, ast.For, ast.While, ast.Try, ast.With)):
+            stored = {t.id for t in ast.walk(s_) if isinstance(t, ast.Name) and isinstance(t.ctx, ast.Store)}
+            if stored & {t.id for t in ast.walk(term) if isinstance(t, ast.Name)}:
+                return None
+    term = substitute(term, local)
+    return ast.ListComp(elt=term, generators=[ast.comprehension(target=lp.target, iter=lp.iter, ifs=[], is_async=0)])
+
+
+def element_of(P, f, expr, depth=0):
+    """generic element of a sequence-valued expression of function f, over markers: `__elem__(X)` = the current element of the
+    input sequence X (all sequences derived from one X by order-preserving maps share the marker, so equal markers mean
+    'same position'); comprehensions, append-loops, range(len(X)) indexing and array wrappers are seen through"""
+    from ..core.expand import mk
+    e = expr
+    while True:
+        if isinstance(e, ast.Call) and (P.canon(f, e.func) in ('numpy.array', 'numpy.asarray', 'builtins.list', 'builtins.tuple')) and len(e.args) >= 1:
+            e = e.args[0]
+            continue
+        break
+    if depth > 6:
+        return mk('__elem__', e)
+    if isinstance(e, ast.Name):
+        acc = accumulation_as_list(f, e.id)
+        if acc is not None:
+            return element_of(P, f, acc, depth + 1)
+        defs = [a for a in find_assignments(f, e.id) if isinstance(a, ast.Assign)]
+        if len(defs) == 1 and len(find_assignments(f, e.id)) == 1 and e.id not in f.params:
+            return element_of(P, f, defs[0].value, depth + 1)
+        return mk('__elem__', e)
+    if isinstance(e, (ast.ListComp, ast.GeneratorExp)) and len(e.generators) == 1 and not e.generators[0].ifs:
+        g = e.generators[0]
+        it = g.iter
+        if isinstance(it, ast.Call) and P.canon(f, it.func) == 'builtins.range' and len(it.args) == 1:
+            n = it.args[0]
+            base = None
+            if isinstance(n, ast.Call) and P.canon(f, n.func) == 'builtins.len' and n.args:
+                base = n.args[0]
+            elif isinstance(n, ast.Subscript) and isinstance(n.value, ast.Attribute) and n.value.attr == 'shape' and const_value(n.slice) == 0:
+                base = n.value.value
+            if base is not None and isinstance(g.target, ast.Name):
+                # X[i] for i in range(len(X))  ->  element of X
+                class R(ast.NodeTransformer):
+                    def visit_Subscript(self, s_):
+                        self.generic_visit(s_)
+                        if isinstance(s_.slice, ast.Name) and s_.slice.id == g.target.id and u(s_.value) == u(base):
+                            return element_of(P, f, base, depth + 1)
+                        return s_
+                from ..core.sym import clone
+                return R().visit(clone(e.elt))
+            return mk('__elem__', e)
+        if isinstance(g.target, ast.Name):
+            inner = element_of(P, f, it, depth + 1)
+            return substitute(e.elt, {g.target.id: inner})
+        return mk('__elem__', e)
+    return mk('__elem__', e)
 
 
 def in_loop(node, stop=None):
